@@ -415,22 +415,24 @@ def overrides(case):
             cx.bad("caller_options_modified", "override %s: option dictionary changed by the call" % list(extra), override=list(extra))
         return c
 
-    for T in (0, 5, 37.5, 100, "42"):
+    # (numbers as python / numpy numbers and as the strings a yaml or a web form may deliver, with and without a decimal point)
+    for T in (0, 5, 37.5, 100, "42", "37.5", "0.0", "100.0", np.float64(12.5), np.int64(7)):
         cx.n["overrides"] += 1
         c = run({"MINIMUM_PERCENT_FED_BEFORE_NONHUMAN_CONSUMPTION_ALLOWED": T})
         d = diff(c0, c)
         if c["MINIMUM_PERCENT_FED_BEFORE_NONHUMAN_CONSUMPTION_ALLOWED"] != float(T) or d - {"MINIMUM_PERCENT_FED_BEFORE_NONHUMAN_CONSUMPTION_ALLOWED"}:
             cx.bad("override_wrong", "minimum percent fed override %r: value %r, other keys changed %s" % (T, c["MINIMUM_PERCENT_FED_BEFORE_NONHUMAN_CONSUMPTION_ALLOWED"], sorted(d)[:5]), override="MINIMUM_PERCENT_FED")
-    for r_ in (0, 0.25, 1):
+    for r_ in (0, 0.25, 1, "0.5", np.float64(0.75)):
         cx.n["overrides"] += 1
         c = run({"RATIO_STOCKS_UNTOUCHED": r_})
         d = diff(c0, c)
         if c["RATIO_STOCKS_UNTOUCHED"] != float(r_) or d - {"RATIO_STOCKS_UNTOUCHED"}:
             cx.bad("override_wrong", "stocks-untouched override %r: value %r, other keys %s" % (r_, c["RATIO_STOCKS_UNTOUCHED"], sorted(d)[:5]), override="RATIO_STOCKS_UNTOUCHED")
     for key, years in (("CROP_PRODUCTION_MULTIPLIER", YEARS), ("GRASSES_PRODUCTION_MULTIPLIER", GYEARS)):
-        for k in (0, 0.5, 1, 2.5, 10):
+        for k in (0, 0.5, 1, 2.5, 10, "2.5", np.float64(0.3)):
             cx.n["overrides"] += 1
             c = run({key: k})
+            k = float(k)
             d = diff(c0, c)
             present = [y for y in years if y in f0]
             wrong = [y for y in present if abs(c[y] - f0[y] * k) > 1e-12 * max(1.0, abs(f0[y] * k))]
